@@ -29,7 +29,7 @@ def pinned_probes(prop):
 
 
 def choose_items(prop, tier, seed, n, select=None, mode_fraction=0.0, delay=False, only_strict_modes=False,
-                 oversample=4):
+                 oversample=4, prior_fraction=0.0):
     """-> list of work items (universe indices, or dicts for thread/process variants)"""
     rng = random.Random(f"{universe.UNIVERSE_VERSION}/items/{prop}/{tier}/{seed}")
     idx = universe.sample_indices(seed, min(universe.UNIVERSE_SIZE, n * (oversample if select else 1)), tag=prop + tier)
@@ -52,6 +52,8 @@ def choose_items(prop, tier, seed, n, select=None, mode_fraction=0.0, delay=Fals
             if delay:
                 it["delay"] = {"salt": f"{seed}-{i}", "max_ms": 2.0, "p": 0.3}
             out.append(it)
+        elif prior_fraction and rng.random() < prior_fraction:
+            out.append({"i": i, "prior": rng.choice([1, 1, 2])})     # instance already used on a sibling task
         else:
             out.append(i)
     for p in pinned_probes(prop):
@@ -63,7 +65,7 @@ def item_label(item):
     if isinstance(item, int):
         return f"u{item}"
     if "i" in item:
-        return f"u{item['i']}/{item.get('mode', 'serial')}/{item.get('workers')}"
+        return f"u{item['i']}/{item.get('mode', 'serial')}/{item.get('workers')}" + (f"/prior{item['prior']}" if item.get("prior") else "")
     return json.dumps(item, sort_keys=True)[:80]
 
 
